@@ -31,3 +31,13 @@ CHECKS = {
    text="For every rule the children section is compiled to a minimal DFA (strict and lenient reading); every word of length <= L and the complete W-method suite P.Sigma^<=k.W are executed on the real validator in fail-fast and collecting mode. The suite is complete for any finite-state validator with up to k extra states, so agreement is established for all finite sequences under that fault model and outright for all short ones.",
    note="Fault model of the W-method (deterministic finite acceptor, <= k extra states; k=1 quick, 2-3 thorough); my regex->DFA pipeline is cross-checked against a direct regex matcher in setup; unspecified zone = strict/lenient difference."),
 }
+
+CHECKS["C17"] = dict(level=MC, engine="E2", design_ref="DESIGN.md section 3 C17",
+   technique="exhaustive enumeration of (child sequence, candidate) pairs per rule against the rule's minimal DFA",
+   text="For every rule, every existing child sequence up to length L over the rule's names and every candidate name, child_insert_index is executed on the real Rule and judged with the independently built DFA: in bounds, declared order preserved, validity restored whenever any position restores it; is_allowed_child is compared with the DFA's useful transitions for every known name.",
+   note="Length bound L per rule (budget 5e3 / 2e5 sequences); premise of the restoration clause uses the strict language and its conclusion the lenient one so nothing unspecified is demanded.")
+
+CHECKS["C10"] = dict(level=MC, engine="E2", design_ref="DESIGN.md section 3 C10",
+   technique="complete enumeration of the shipped tables: BFS over the element graph, structural grammar, least-fixpoint satisfiability with DFA-generated witnesses validated by the real validate.tree",
+   text="The space is finite (224 names, 107 rules) and enumerated completely: every mapping, every rule's structure, every child name of every reachable rule, and a witness tree per element / per permitted child / per useful DFA transition that the real whole-tree validator must accept.",
+   note="Witness generation relies on my DFA of each rule (cross-checked by C01); three permitted-but-unknown child names are recorded as open known findings F9a-c.")
